@@ -347,7 +347,8 @@ def run_PW(case, ses):
                         neg = 'operation fails or leaves the family: %s' % (exc or type(res).__name__)
                     else:
                         sv = cc.z3v(res.sign) if isinstance(res.sign, cc.CV) else z3.RealVal(int(res.sign))
-                        val = sv * zmax(cc.z3v(res.pieces[0]), cc.z3v(res.pieces[1]))
+                        pv_ = [cc.z3v(p_) for p_ in res.pieces]
+                        val = sv * (pv_[0] if len(pv_) == 1 else zmax(pv_[0], pv_[1]))
                         want = {'neg': -fpre, 'mul': C * fpre, 'rmul': C * fpre, 'add': fpre + A, 'radd': fpre + A,
                                 'sub': fpre - A, 'rsub': A - fpre}[op]
                         neg = z3.Not(z3.And(val == want, z3.Or(sv == 1, sv == -1, sv == 0)))
